@@ -784,3 +784,71 @@ package ctfe
 //@ at ats assert [start-of-the-config] ats.x == cfg.NotAfterStart
 //@ at atl assert [limit-of-the-config] atl.x == cfg.NotAfterLimit
 //@ at pg assert [the-whole-connection-string] pg.connString == cfg.CtfeStorageConnectionString
+
+//@ func BuildLogBackendMap
+//@ props C15
+//@ arith int
+//@ modifies nothing
+//@ loop-frames
+//@ requires lbs != nil ==> (forall j int :: 0 <= j && j < len(lbs.Backend) ==> lbs.Backend[j] != nil)
+//@ loop 1 invariant forall k int :: 0 <= k && k <= rangeindex ==> lbs.Backend[k].Name != "" && lbs.Backend[k].BackendSpec != "" && has(lbm, lbs.Backend[k].Name) && lbm[lbs.Backend[k].Name] == lbs.Backend[k] && has(specs, lbs.Backend[k].BackendSpec) && specs[lbs.Backend[k].BackendSpec]
+//@ loop 1 invariant forall a int :: forall b int :: 0 <= a && a < b && b <= rangeindex ==> lbs.Backend[a].Name != lbs.Backend[b].Name && lbs.Backend[a].BackendSpec != lbs.Backend[b].BackendSpec
+//@ loop 1 invariant forall n string :: has(lbm, n) ==> (exists k int :: 0 <= k && k <= rangeindex && lbs.Backend[k].Name == n)
+//@ loop 1 invariant forall n string :: has(specs, n) && specs[n] ==> (exists k int :: 0 <= k && k <= rangeindex && lbs.Backend[k].BackendSpec == n)
+//@ ensures [names-and-specs-non-empty] result1 == nil && lbs != nil ==> (forall k int :: 0 <= k && k < len(lbs.Backend) ==> lbs.Backend[k].Name != "" && lbs.Backend[k].BackendSpec != "")
+//@ ensures [names-and-specs-pairwise-distinct] result1 == nil && lbs != nil ==> (forall a int :: forall b int :: 0 <= a && a < b && b < len(lbs.Backend) ==> lbs.Backend[a].Name != lbs.Backend[b].Name && lbs.Backend[a].BackendSpec != lbs.Backend[b].BackendSpec)
+//@ ensures [map-holds-exactly-the-backends-by-name] result1 == nil && lbs != nil ==> (forall k int :: 0 <= k && k < len(lbs.Backend) ==> has(result0, lbs.Backend[k].Name) && result0[lbs.Backend[k].Name] == lbs.Backend[k]) && (forall n string :: has(result0, n) ==> (exists k int :: 0 <= k && k < len(lbs.Backend) && lbs.Backend[k].Name == n))
+//@ ensures [no-backends-gives-an-empty-map] result1 == nil && lbs == nil ==> (forall n string :: !has(result0, n))
+
+// logValid(k): ValidateLogConfig accepted the k-th log configuration (observed in the single pass).
+//@ uf logValid(k int) bool
+
+//@ func validateConfigs
+//@ props C15
+//@ arith int
+//@ modifies nothing
+//@ loop-frames
+//@ site ValidateLogConfig#1 as vl
+//@ requires forall j int :: 0 <= j && j < len(cfg) ==> cfg[j] != nil
+//@ after vl define logValid(rangeindex + 1) == (vl.res1 == nil)
+//@ loop 1 invariant forall k int :: 0 <= k && k <= rangeindex ==> logValid(k) && cfg[k].Prefix != "" && has(logNameMap, cfg[k].Prefix) && logNameMap[cfg[k].Prefix]
+//@ loop 1 invariant forall a int :: forall b int :: 0 <= a && a < b && b <= rangeindex ==> cfg[a].Prefix != cfg[b].Prefix
+//@ loop 1 invariant forall n string :: has(logNameMap, n) && logNameMap[n] ==> (exists k int :: 0 <= k && k <= rangeindex && cfg[k].Prefix == n)
+//@ ensures [every-log-config-valid-with-a-non-empty-prefix] result == nil ==> (forall k int :: 0 <= k && k < len(cfg) ==> logValid(k) && cfg[k].Prefix != "")
+//@ ensures [prefixes-pairwise-distinct] result == nil ==> (forall a int :: forall b int :: 0 <= a && a < b && b < len(cfg) ==> cfg[a].Prefix != cfg[b].Prefix)
+//@ ensures [a-well-formed-set-is-accepted] result != nil ==> (exists k int :: 0 <= k && k < len(cfg) && (!logValid(k) || cfg[k].Prefix == "" || (exists a int :: 0 <= a && a < k && cfg[a].Prefix == cfg[k].Prefix)))
+//@ at vl assert [validates-each-config-in-turn] vl.cfg == cfg[rangeindex + 1]
+
+//@ func ValidateLogConfigs
+//@ props C15
+//@ arith int
+//@ modifies nothing
+//@ loop-frames
+//@ site validateConfigs#1 as vc
+//@ requires forall j int :: 0 <= j && j < len(cfg) ==> cfg[j] != nil
+//@ loop 1 invariant forall k int :: 0 <= k && k <= rangeindex ==> has(treeIDs, cfg[k].LogId) && treeIDs[cfg[k].LogId]
+//@ loop 1 invariant forall a int :: forall b int :: 0 <= a && a < b && b <= rangeindex ==> cfg[a].LogId != cfg[b].LogId
+//@ loop 1 invariant forall n int64 :: has(treeIDs, n) && treeIDs[n] ==> (exists k int :: 0 <= k && k <= rangeindex && cfg[k].LogId == n)
+//@ ensures [per-log-and-prefix-rules-first] vc.res != nil ==> result == vc.res
+//@ ensures [tree-ids-pairwise-distinct] result == nil ==> vc.res == nil && (forall a int :: forall b int :: 0 <= a && a < b && b < len(cfg) ==> cfg[a].LogId != cfg[b].LogId)
+//@ ensures [distinct-tree-ids-are-accepted] vc.res == nil && result != nil ==> (exists b int :: 0 <= b && b < len(cfg) && (exists a int :: 0 <= a && a < b && cfg[a].LogId == cfg[b].LogId))
+//@ at vc assert [same-configs] vc.cfg == cfg
+
+//@ func ValidateLogMultiConfig
+//@ props C15
+//@ arith int
+//@ modifies nothing
+//@ loop-frames
+//@ site BuildLogBackendMap#1 as bm
+//@ site validateConfigs#1 as vc
+//@ site fmt.Sprintf#1 as key
+//@ requires cfg != nil
+//@ requires cfg.Backends != nil ==> (forall j int :: 0 <= j && j < len(cfg.Backends.Backend) ==> cfg.Backends.Backend[j] != nil)
+//@ requires cfg.LogConfigs != nil ==> (forall j int :: 0 <= j && j < len(cfg.LogConfigs.Config) ==> cfg.LogConfigs.Config[j] != nil)
+//@ loop 1 invariant forall k int :: 0 <= k && k <= rangeindex ==> has(bm.res0, cfg.LogConfigs.Config[k].LogBackendName)
+//@ ensures [backend-rules-first] bm.res1 != nil ==> result1 == bm.res1 && !vc.called
+//@ ensures [then-per-log-and-prefix-rules] vc.called && vc.res != nil ==> result1 == vc.res
+//@ ensures [every-log-refers-to-a-defined-backend] result1 == nil && cfg.LogConfigs != nil ==> (forall k int :: 0 <= k && k < len(cfg.LogConfigs.Config) ==> has(result0, cfg.LogConfigs.Config[k].LogBackendName))
+//@ ensures [success-returns-the-backend-map] result1 == nil ==> bm.res1 == nil && vc.called && vc.res == nil && result0 == bm.res0
+//@ at bm assert [backends-of-the-config] bm.lbs == cfg.Backends
+//@ at vc assert [logs-of-the-config] cfg.LogConfigs != nil ==> vc.cfg == cfg.LogConfigs.Config
